@@ -57,7 +57,28 @@ def reply_varbinds(op, k):
     return [(BASE_ARCS + [1, k], ("int", 1000 + k)), (BASE_ARCS + [2, k], ("gauge32", 2000 + k))]
 
 
-def build_mutant(agent, cfg, reqs, d):
+def near_id(x, variant, ids):
+    """an id different from every id in `ids`, chosen to resemble x (catches comparisons that look at part of the id only)"""
+    cands = [(x + 1) & 0x7FFFFFFF, x ^ 0x40000000, x & 0xFFFF, x ^ 0x00010000, (x - 1) & 0x7FFFFFFF, x >> 8, 0]
+    for i in range(len(cands)):
+        c = cands[(variant + i) % len(cands)]
+        if c not in ids:
+            return c
+    return ag.other_id(ids)
+
+
+def near_cred(c, variant):
+    """a credential that is not c but resembles it (prefix / extension / case / empty)"""
+    c = bytes(c)
+    cands = [b"other", c + b"x", c[:-1], c.upper() if c.upper() != c else c.lower(), b"", c[1:], c + b"\x00"]
+    for i in range(len(cands)):
+        v = cands[(variant + i) % len(cands)]
+        if v != c:
+            return v
+    return b"other"
+
+
+def build_mutant(agent, cfg, reqs, d, variant=0):
     """d: abstract datagram record of Session.tla -> concrete octets"""
     if d["kind"] == "garbage":
         k = max(reqs)
@@ -72,16 +93,17 @@ def build_mutant(agent, cfg, reqs, d):
     if not d["verOk"]:
         kw["ver"] = {"v1": "v2c", "v2c": "v1", "v3": "v2c"}[cfg.ver]
     if not d["credOk"]:
-        kw["community"] = b"other"
-        kw["user"] = b"otheruser"
+        kw["community"] = near_cred(cfg.community.encode(), variant)
+        kw["user"] = near_cred(cfg.user.encode(), variant)
     if d["reqIdOf"] == 99:
-        kw["reqid"] = ag.other_id(ids)
+        kw["reqid"] = near_id(req.reqid, variant, ids)
     if cfg.ver == "v3":
         if not d["engineOk"]:
-            kw["engine"] = b"\x80\x00\x1f\x88\x80\x09\x09\x09\x09"
+            e = agent.engine
+            kw["engine"] = [b"\x80\x00\x1f\x88\x80\x09\x09\x09\x09", e + b"\x01", e[:-1], e[:-1] + bytes([e[-1] ^ 1])][variant % 4]
             kw["key_engine"] = agent.engine
         if d["msgIdOf"] == 99:
-            kw["msgid"] = ag.other_id(ids)
+            kw["msgid"] = near_id(req.msgid, variant + 3, ids)
         mac = d["mac"]
         kw["mac"] = {"valid": "valid", "zero": "zero", "random": "random", "absent": "absent", "flipped": "flip"}[mac]
         if cfg.auth == "none":
@@ -144,7 +166,7 @@ def run_script(rec, cfg, script, variant=0, sid=1):
                 break
             reqs[k] = (cur_op, ag.Request(cfg, w))
         elif a["a"] == "inject":
-            sess.inject(build_mutant(agent, cfg, reqs, a["d"]))
+            sess.inject(build_mutant(agent, cfg, reqs, a["d"], variant + len(queue) + k))
             nm = mutant_name(cfg, a["d"])
             if a["d"]["kind"] == "msg" and a["d"]["answers"] != k:
                 nm += "(stale)"
